@@ -616,6 +616,7 @@ type loopCtx struct {
 	v0     *Term
 	pos    token.Pos
 	autoInv []func(st *State) (*Term, string)
+	preSt  *State // state before the loop
 	idxNow *Term // hidden index of a range loop at the point an invariant is evaluated (spec name: idx)
 }
 
@@ -801,6 +802,7 @@ func (vc *VC) heapWriteSet(body ast.Node, extra []ast.Node, mi *modInfo) ([]type
 func (vc *VC) inLoopInvariantCheck(lc *loopCtx, st *State, kind string) {
 	if lc.spec != nil {
 		env := vc.specEnvAt(st, lc.pos)
+		env.pre = lc.preSt
 		if lc.idxNow != nil {
 			env.names["idx"] = intVal(lc.idxNow)
 		}
@@ -834,6 +836,7 @@ func (vc *VC) assumeAt(st *State, t *Term) {
 func (vc *VC) loopAssumeInvariants(lc *loopCtx, st *State) {
 	if lc.spec != nil {
 		env := vc.specEnvAt(st, lc.pos)
+		env.pre = lc.preSt
 		if lc.idxNow != nil {
 			env.names["idx"] = intVal(lc.idxNow)
 		}
@@ -867,6 +870,7 @@ func (vc *VC) execFor(x *ast.ForStmt, st *State, label string) Flow {
 		st = f.normal
 	}
 	lc := &loopCtx{stmt: x, spec: vc.loopSpec(x), ord: vc.loopOrd[x], pos: x.Body.Lbrace + 1, autoInv: vc.frameAutoInv()}
+	lc.preSt = st.clone()
 	vc.inLoopInvariantCheck(lc, st, "inv.init")
 	head := st.clone()
 	vc.havocForLoop(x.Body, []ast.Node{x.Post, x.Cond}, head, "loop")
@@ -1026,6 +1030,7 @@ func (vc *VC) execRange(x *ast.RangeStmt, st *State, label string) Flow {
 		setKey(pre, idx0)
 	}
 	lc.idxNow = idx0
+	lc.preSt = st.clone()
 	vc.inLoopInvariantCheck(lc, pre, "inv.init")
 	head := st.clone()
 	vc.havocForLoop(x.Body, nil, head, "range loop")
